@@ -110,7 +110,7 @@ class P:
         if k == "name":
             self.i += 1; out = x
             while self.t[self.i][1] == "." and self.t[self.i + 1][0] == "name": out += "." + self.t[self.i + 1][1]; self.i += 2
-            if self.t[self.i][1] == "(" and x[0].isupper():
+            if self.t[self.i][1] == "(" and out.split(".")[-1][0].isupper():
                 self.i += 1; ts = []
                 while self.t[self.i][1] != ")":
                     ts.append(self.type_text())
